@@ -1,0 +1,12 @@
+//go:build verif
+
+// Contracts for the deductive verifier in /verif (gowp).  This file contains no
+// executable code: only "//@" specification comments.  Compiled only under tag "verif".
+package file
+
+//@ func (*File).Name
+//@   inline
+//@ func (*File).Source
+//@   inline
+//@ func (*File).Base
+//@   inline
